@@ -224,8 +224,12 @@ def product_chunk(args):
 
 def replay(path: str) -> int:
     v = json.loads(open(path).read())
-    d = c02.tup(v['replay'].get('descriptor'))
     print(v.get('what'))
+    if 'capacity' in v['replay']:
+        from . import c03
+        out = c03.capacity_chunk(tuple(v['replay']['capacity']))
+        return 1 if out['viol'] else 0
+    d = c02.tup(v['replay'].get('descriptor'))
     out = product_chunk(([d], 1))
     for sig, _, what in out['viol']:
         print('still failing:', sig, what[:400])
@@ -250,6 +254,16 @@ def main(argv=None) -> int:
                     chk.violation(sig, {'descriptor': d, 'signature': sig}, what)
             else:
                 agg[k] = agg.get(k, 0) + v
+    # slot budget of the shipped optimising stack (counting pass -> memoiser over the serialiser): proofs with
+    # about 256 patterns worth saving must still run there, as they do on the plain serialiser
+    from . import c03
+    memo_cases = [('memo', n) for n in ((3, 200, 250, 253, 254, 255, 256, 257, 258, 300, 400, 600) if thorough else (200, 254, 255, 256, 300))]
+    for (kind, n), out in zip(memo_cases, par.pmap(c03.capacity_chunk, memo_cases)):
+        agg['evals'] = agg.get('evals', 0) + 1
+        agg['runs'] = agg.get('runs', 0) + 2
+        for sig, what in out['viol']:
+            sig = dict(sig, kind='optimising_stack_' + sig['kind'])
+            chk.violation(sig, {'capacity': [kind, n], 'signature': sig}, what)
     chk.set('states', agg.get('evals', 0))
     chk.set('transitions', agg.get('runs', 0))
     chk.set('traces_validated_against_impl', agg.get('runs', 0))
